@@ -182,7 +182,24 @@ SaveClausesC04(e) ==
 NameSeq(d) == [t \in Idx(d.tiers) |-> d.tiers[t].name]
 HasDup(names) == \E i, j \in Idx(names) : i # j /\ names[i] = names[j]
 Uniq(names) == ~HasDup(names)
-KeepEnts(ents, inclEmpty) == IF inclEmpty THEN ents ELSE SelectSeq(ents, LAMBDA x : x.l # <<>>)
+\* praatio strips surrounding white space from every label it reads (C05: labels carry none); an entry counts as
+\* empty-labelled when nothing is left
+IsWSc(c) == c[1] \in {"NL", "SP"}
+RECURSIVE TrimL(_)
+TrimL(l) == IF l # <<>> /\ IsWSc(l[1]) THEN TrimL(Tail(l)) ELSE l
+RECURSIVE TrimR(_)
+TrimR(l) == IF l # <<>> /\ IsWSc(l[Len(l)]) THEN TrimR(SubSeq(l, 1, Len(l) - 1)) ELSE l
+TrimWS(l) == TrimR(TrimL(l))
+TrimEnts(ents) == [i \in Idx(ents) |-> [ents[i] EXCEPT !.l = TrimWS(@)]]
+KeepEnts(ents, inclEmpty) == IF inclEmpty THEN TrimEnts(ents) ELSE SelectSeq(TrimEnts(ents), LAMBDA x : x.l # <<>>)
+KeepEntsAlt(ents, inclEmpty) == IF inclEmpty THEN TrimEnts(ents) ELSE TrimEnts(SelectSeq(ents, LAMBDA x : x.l # <<>>))
+
+(* "agree" events: the results of opening the short, long and ELAN-long encodings (any spelling of the numbers)   *)
+(* of one document with the same options                                                                         *)
+AgreeClauses(e) ==
+  [ C03_long_and_short_encodings_open_to_equal_textgrids |->
+        \A i, j \in Idx(e.results) : (e.results[i].st = "ok" /\ e.results[j].st = "ok") => e.results[i].res = e.results[j].res ]
+
 OpenClauses(e) ==
   LET doc == e.doc  res == e.res  ok == e.st = "ok"
       dup == HasDup(NameSeq(doc))
@@ -191,7 +208,8 @@ OpenClauses(e) ==
       tierOK(t) == LET T == doc.tiers[t]  R == res.tiers[t] IN
                    /\ R.kind = T.kind
                    /\ R.lo = (IF isJson THEN doc.lo ELSE T.lo) /\ R.hi = (IF isJson THEN doc.hi ELSE T.hi)
-                   /\ R.ents = KeepEnts(T.ents, e.args.inclEmpty)
+                   \* a label of white space only: omitted as empty, or kept with the (trimmed, hence empty) label
+                   /\ (R.ents = KeepEnts(T.ents, e.args.inclEmpty) \/ R.ents = KeepEntsAlt(T.ents, e.args.inclEmpty))
   IN [ C03_duplicate_names_raise_when_selected |-> (dup /\ e.args.dup = "error") => e.st = "DuplicateTierName",
        C03_opens_conformant_file |-> ~(dup /\ e.args.dup = "error") => ok,
        C03_span |-> ok => (res.lo = doc.lo /\ res.hi = doc.hi),
@@ -199,7 +217,9 @@ OpenClauses(e) ==
        C03_tiers_spans_times_labels |-> (ok /\ Len(res.tiers) = Len(doc.tiers)) => \A t \in Idx(doc.tiers) : tierOK(t),
        C03_names |-> (ok /\ Len(res.tiers) = Len(doc.tiers) /\ ~dup) => NameSeq(res) = NameSeq(doc),
        C03_duplicates_renamed_to_unique_names_in_file_order |-> (ok /\ Len(res.tiers) = Len(doc.tiers) /\ dup) =>
-            (Uniq(NameSeq(res)) /\ \A t \in Idx(doc.tiers) : firstOcc(t) => res.tiers[t].name = doc.tiers[t].name) ]
+            \* processed in file order: a tier keeps its name unless an earlier tier already carries it (as read or as renamed)
+            (Uniq(NameSeq(res)) /\ \A t \in Idx(doc.tiers) :
+                 (\A u \in 1..(t - 1) : res.tiers[u].name # doc.tiers[t].name) => res.tiers[t].name = doc.tiers[t].name) ]
 
 (* ---------------- "roundtrip" events (C01) ------------------------------------------------------ *)
 (* e = [mem, fmt, args: [blanks, inclEmpty], st1, st2, st3, res, sametext]                            *)
@@ -208,6 +228,8 @@ RoundTripClauses(e) ==
       ok == e.st1 = "ok" /\ e.st2 = "ok"
       isJson == e.fmt = "json"
       sameShape == ok /\ Len(res.tiers) = Len(mem.tiers)
+      emptyPoints == \E t \in Idx(mem.tiers) : mem.tiers[t].kind = "P" /\ \E i \in Idx(mem.tiers[t].ents) : mem.tiers[t].ents[i].l = <<>>
+      emptyIntervals == \E t \in Idx(mem.tiers) : mem.tiers[t].kind = "I" /\ \E i \in Idx(mem.tiers[t].ents) : mem.tiers[t].ents[i].l = <<>>
       expectEnts(T, R) ==
         \* what must come back for memory tier T
         IF T.kind = "I" /\ e.args.blanks /\ e.args.inclEmpty
@@ -220,7 +242,14 @@ RoundTripClauses(e) ==
                                                res.tiers[t].name = mem.tiers[t].name /\ res.tiers[t].kind = mem.tiers[t].kind),
        C01_tier_spans |-> sameShape => \A t \in Idx(mem.tiers) :
                              IF isJson THEN (res.tiers[t].lo = res.lo /\ res.tiers[t].hi = res.hi)
-                             ELSE (M(mem.tiers[t].lo, res.tiers[t].lo) /\ M(mem.tiers[t].hi, res.tiers[t].hi)),
+                             ELSE \/ (M(mem.tiers[t].lo, res.tiers[t].lo) /\ M(mem.tiers[t].hi, res.tiers[t].hi))
+                                  \* blank filling extends an interval tier to the file's span (that is its documented purpose);
+                                  \* the tier is then written, and read back, with that span
+                                  \/ (e.args.blanks /\ mem.tiers[t].kind = "I"
+                                      /\ res.tiers[t].lo = res.lo /\ res.tiers[t].hi = res.hi),
        C01_entries_times_bit_identical_labels_identical |-> sameShape => \A t \in Idx(mem.tiers) : expectEnts(mem.tiers[t], res.tiers[t]),
-       C01_resave_is_fixed_point |-> ok => (e.st3 = "ok" /\ e.sametext) ]
+       \* empty-labelled entries of the original that the caller asked the reader to leave out (includeEmptyIntervals =
+       \* False) cannot be reproduced by the second save (blanks added by the first save can: they are filled in again)
+       C01_resave_is_fixed_point |-> (ok /\ (e.args.inclEmpty \/ (~emptyPoints /\ ~emptyIntervals))) =>
+                                        (e.st3 = "ok" /\ e.sametext) ]
 =============================================================================
